@@ -705,7 +705,7 @@ Definition resolve_now (cwd home : bytes) (fs : fsview) (filename : option bytes
 
 (* what one line of the including cart turns into (today's code: included lines get their newline) *)
 Definition expand_now (cwd home : bytes) (fs : fsview) (filename : option bytes) : bytes -> result (list bytes) :=
-  expand_line include_newline_kind (resolve_now cwd home fs filename) (fs_target fs).
+  expand_line include_newline_kind (resolve_now cwd home fs filename) (fs_target include_cart_lines_kind fs).
 
 Lemma splice_now cwd home fs filename lines out :
   process_includes_now cwd home fs filename lines = Ok out ->
@@ -726,7 +726,7 @@ Lemma expand_now_cases cwd home fs filename l :
     match resolve_now cwd home fs filename (path ++ ext) with
     | Err e => expand_now cwd home fs filename l = Err e
     | Ok p =>
-      match fs_target fs p ext with
+      match fs_target include_cart_lines_kind fs p ext with
       | None => expand_now cwd home fs filename l = Err OtherError
       | Some ls => expand_now cwd home fs filename l =
                    Ok (map (yielded 1) (if is_cart_ext ext then lines_for_tab ls tab else ls))
@@ -736,7 +736,7 @@ Lemma expand_now_cases cwd home fs filename l :
 Proof.
   unfold expand_now, expand_line. destruct (match_include_line l) as [[[path ext] tab]|]; [|reflexivity].
   unfold include_lines. destruct (resolve_now cwd home fs filename (path ++ ext)) as [p|e]; [|reflexivity].
-  cbn [bind]. destruct (fs_target fs p ext); reflexivity.
+  cbn [bind]. destruct (fs_target include_cart_lines_kind fs p ext); reflexivity.
 Qed.
 
 Lemma error_now cwd home fs filename lines l e :
@@ -781,8 +781,36 @@ Proof.
   destruct (classify_include_agrees l name k tab nl Hnl E) as (base & H1 & H2 & _). exists base. split; assumption.
 Qed.
 
+(* the file-system view and the directory content describe the same files: a named text file is read
+   as its bytes, a named cart's reader returns the cart's code (in chunks of any shape) *)
+Definition fs_agrees (cwd home : bytes) (fs : fsview) (filename : option bytes)
+           (content : bytes -> Z -> option bytes) : Prop :=
+  forall name k, name_kind name = Some k -> name_local name = true ->
+  match content name k with
+  | None => exists e, resolve_now cwd home fs filename name = Err e
+  | Some txt => exists p, resolve_now cwd home fs filename name = Ok p /\
+      (k = 0 -> fs_read fs p = Some txt) /\
+      (k <> 0 -> exists chunks, fs_cart fs p = Some chunks /\ concat chunks = txt)
+  end.
+
+Lemma fs_agrees_view_ok cwd home fs filename content :
+  fs_agrees cwd home fs filename content ->
+  view_ok (resolve_now cwd home fs filename) (fs_target include_cart_lines_kind fs) content.
+Proof.
+  intros H name k Hk Hl. specialize (H name k Hk Hl). destruct (content name k) as [txt|]; [|exact H].
+  destruct H as (p & Hr & Hlua & Hcart). exists p. split; [exact Hr|]. split.
+  - intros ->. unfold fs_target. change (is_cart_ext (ext_of 0)) with false. cbv iota.
+    rewrite (Hlua eq_refl). reflexivity.
+  - intros Hk1. destruct (Hcart Hk1) as (chunks & Hc & <-). exists (file_lines (concat chunks)). split.
+    + unfold fs_target.
+      assert (Hce : is_cart_ext (ext_of k) = true).
+      { destruct (name_kind_some name k Hk) as (_ & _ & _ & [->|[->| ->]]); [congruence|reflexivity|reflexivity]. }
+      rewrite Hce, Hc. reflexivity.
+    + split; [apply file_lines_line_like|apply file_lines_text].
+Qed.
+
 Lemma refines_now cwd home fs filename content bodies :
-  view_ok (resolve_now cwd home fs filename) (fs_target fs) content ->
+  fs_agrees cwd home fs filename content ->
   Forall no_nl bodies ->
   let hs := map (fun b => b ++ [10]) bodies in
   let impl := model_outcome (process_includes_now cwd home fs filename hs) in
@@ -793,16 +821,20 @@ Lemma refines_now cwd home fs filename content bodies :
   | SpUndefined => True
   end.
 Proof.
-  intros Hv Hb. exact (model_meets_spec (resolve_now cwd home fs filename) (fs_target fs) content Hv bodies Hb).
+  intros Hv Hb.
+  exact (model_meets_spec (resolve_now cwd home fs filename) (fs_target include_cart_lines_kind fs) content
+           (fs_agrees_view_ok _ _ _ _ _ Hv) bodies Hb).
 Qed.
 
 Lemma holds_now cwd home fs filename files bodies :
-  view_ok (resolve_now cwd home fs filename) (fs_target fs) (lookup_content files) ->
+  fs_agrees cwd home fs filename (lookup_content files) ->
   Forall no_nl bodies ->
   let hs := map (fun b => b ++ [10]) bodies in
   holds_C20 (concat hs) files (model_outcome (process_includes_now cwd home fs filename hs)) = true.
 Proof.
-  intros Hv Hb. exact (model_holds_C20 (resolve_now cwd home fs filename) (fs_target fs) files bodies Hv Hb).
+  intros Hv Hb.
+  exact (model_holds_C20 (resolve_now cwd home fs filename) (fs_target include_cart_lines_kind fs) files bodies
+           (fs_agrees_view_ok _ _ _ _ _ Hv) Hb).
 Qed.
 
 (* ---- the code before the newline fix (include_newline_kind = 0) is refuted; today's model is right ---- *)
@@ -814,12 +846,38 @@ Definition g_host : list bytes :=    (* x=1 / #include l.lua / c=d *)
   [[120; 61; 49]; [35; 105; 110; 99; 108; 117; 100; 101; 32; 108; 46; 108; 117; 97]; [99; 61; 100]].
 Definition g_files : list (bytes * Z * bytes) := [([108; 46; 108; 117; 97], 0, [97; 61; 98])].
 Definition g_run (nl_kind : Z) : result (list bytes) :=
+  let cart_kind := include_cart_lines_kind in
   process_includes nl_kind (resolve_include_now [47] [47; 104] (fs_isfile g_fs) [47; 99; 47; 104; 46; 112; 56])
-    (fs_target g_fs) (map (fun b => b ++ [10]) g_host).
+    (fs_target cart_kind g_fs) (map (fun b => b ++ [10]) g_host).
 
 Lemma glue_variant_refuted :
   holds_C20 (concat (map (fun b => b ++ [10]) g_host)) g_files (model_outcome (g_run 0)) = false /\
   model_outcome (g_run 0) = Some [120; 61; 49; 10; 97; 61; 98; 99; 61; 100; 10] /\            (* x=1 / a=bc=d *)
   holds_C20 (concat (map (fun b => b ++ [10]) g_host)) g_files (model_outcome (g_run include_newline_kind)) = true /\
   model_outcome (g_run include_newline_kind) = Some [120; 61; 49; 10; 97; 61; 98; 10; 99; 61; 100; 10].
+Proof. vm_compute. repeat split; reflexivity. Qed.
+
+(* ---- selecting the tab on the reader's chunks (include_cart_lines_kind = 0, the code before the second
+        fix) is refuted: a "-->8" line inside a multi-line string was not a tab boundary ---- *)
+Definition m_code : bytes :=      (* s=[[ / -->8 / ]] / t=2 / -->8 / u=3 *)
+  [115; 61; 91; 91; 10; 45; 45; 62; 56; 10; 93; 93; 10; 116; 61; 50; 10; 45; 45; 62; 56; 10; 117; 61; 51; 10].
+Definition m_chunks : list bytes :=   (* as the lexer's echo hands them over: the long string is one chunk *)
+  [[115; 61; 91; 91; 10; 45; 45; 62; 56; 10; 93; 93; 10]; [116; 61; 50; 10]; [45; 45; 62; 56; 10]; [117; 61; 51; 10]].
+Definition m_fs : fsview :=
+  mk_fsview (fun p => zlist_eqb p [47; 99; 47; 109; 46; 112; 56])                       (* /c/m.p8 *)
+            (fun _ => None)
+            (fun p => if zlist_eqb p [47; 99; 47; 109; 46; 112; 56] then Some m_chunks else None).
+Definition m_host : list bytes :=   (* #include m.p8:1 *)
+  [[35; 105; 110; 99; 108; 117; 100; 101; 32; 109; 46; 112; 56; 58; 49]].
+Definition m_files : list (bytes * Z * bytes) := [([109; 46; 112; 56], 1, m_code)].
+Definition m_run (cart_kind : Z) : result (list bytes) :=
+  process_includes include_newline_kind (resolve_include_now [47] [47; 104] (fs_isfile m_fs) [47; 99; 47; 104; 46; 112; 56])
+    (fs_target cart_kind m_fs) (map (fun b => b ++ [10]) m_host).
+
+Lemma tab_variant_refuted :
+  concat m_chunks = m_code /\
+  holds_C20 (concat (map (fun b => b ++ [10]) m_host)) m_files (model_outcome (m_run 0)) = false /\
+  model_outcome (m_run 0) = Some [117; 61; 51; 10] /\                                            (* u=3 *)
+  holds_C20 (concat (map (fun b => b ++ [10]) m_host)) m_files (model_outcome (m_run include_cart_lines_kind)) = true /\
+  model_outcome (m_run include_cart_lines_kind) = Some [93; 93; 10; 116; 61; 50; 10].            (* ]] / t=2 *)
 Proof. vm_compute. repeat split; reflexivity. Qed.
